@@ -5,6 +5,7 @@ CONSTANTS
   MaxCheckouts = 2
   MaxEdits = 3
   Variant = "le"
+  Restores = {}
   Emit = FALSE
 INVARIANTS Inv_Seen Inv_Time
 VIEW View
